@@ -168,7 +168,7 @@ theorem fork_mid {s s1 : St} {ra keep : Nat} {r fr : Rollapp} {st kst : SInfo} (
     (hstates : fr.states = r.states.take (keep - 1) ++ [kst]) (hle : r.lastFin ≤ keep)
     (c1 : kst.creationHeight = st.creationHeight) (c2 : kst.finalized = st.finalized)
     (c3 : kst.finalizedAt = st.finalizedAt) (c4 : keep ≤ r.lastFin → sKey kst = sKey st) :
-    FinInv (setRa s1 fr) ∧ Evolves s (setRa s1 fr) := by
+    FinInv (setRa s1 fr) ∧ Evolves s (setRa s1 fr) ∧ Back s (setRa s1 fr) := by
   have hrid : r.id = ra := getRa_id hg
   have hrmem : r ∈ s.ras := getRa_mem hg
   have old := hi.ras r hrmem
@@ -178,7 +178,22 @@ theorem fork_mid {s s1 : St} {ra keep : Nat} {r fr : Rollapp} {st kst : SInfo} (
   have hlen : fr.states.length = keep := by
     rw [hstates, List.length_append, List.length_take]; simp; omega
   have hn1 : IdsNodup s1 := hi.nodup.of_ids (by rw [h1ras])
-  constructor
+  refine ⟨?_, ?_, ?_⟩
+  rotate_left 2
+  · intro r2 hr2 i st' hst' hf
+    rcases mem_setRa_strong hr2 with ⟨hm, _⟩ | heq
+    · rw [h1ras] at hm; exact ⟨r2, hm, rfl, st', hst', rfl⟩
+    · subst heq
+      refine ⟨r, hrmem, hid.symm, ?_⟩
+      rw [hget i] at hst'
+      split at hst'
+      · exact ⟨st', hst', rfl⟩
+      · split at hst'
+        · rename_i _ h2
+          injection hst' with hst'; subst hst'
+          have : keep - 1 < r.lastFin := (old.pre _ st hst).1 (by rw [← c2]; exact hf)
+          exact ⟨st, by rw [h2]; exact hst, (c4 (by omega)).symm⟩
+        · cases hst'
   · refine ⟨hn1.setRa fr, ?_, ?_, ?_, ?_⟩
     · show QSorted s1.queue
       rw [h1q]; exact removeIdxAbove_sorted _ _ _ hi.sorted
@@ -276,8 +291,8 @@ def forkMid (s : St) (ra keep : Nat) (r : Rollapp) (kst : SInfo) : St :=
                          seqH := pruneSeqHeights s.seqH (kst.creator :: (r.states.drop keep).map (·.creator)) kst.last }
       (forkedRollapp r keep kst)).2
 
-theorem hardFork_good {s s' : St} {ra lv : Nat} (e : hardFork s ra lv = .ok s') : Good s s' := by
-  intro hc hi
+theorem hardFork_full {s s' : St} {ra lv : Nat} (e : hardFork s ra lv = .ok s') (hc : ChainAll s) (hi : FinInv s) :
+    (ChainAll s' ∧ FinInv s' ∧ Evolves s s' ∧ s'.p = s.p) ∧ Back s s' := by
   have hc' := hardFork_chain hc e
   unfold hardFork at e
   split at e
@@ -299,10 +314,14 @@ theorem hardFork_good {s s' : St} {ra lv : Nat} (e : hardFork s ra lv = .ok s') 
           have hmidc : ChainAll (forkMid s ra keep r kst) := by
             unfold forkMid resetClock
             exact RaAll.setRa (hc.ras_eq rfl) (forkedRollapp_chain (hc.get hg) hplan)
-          have hmid : FinInv (forkMid s ra keep r kst) ∧ Evolves s (forkMid s ra keep r kst) := by
+          have hmid : FinInv (forkMid s ra keep r kst) ∧ Evolves s (forkMid s ra keep r kst) ∧
+              Back s (forkMid s ra keep r kst) := by
             unfold forkMid resetClock
             exact fork_mid hi hg rfl rfl rfl rfl rfl rfl hk1 hst rfl hle c1 c2 c3 c4
           obtain ⟨p2, s2⟩ := seqOnHardFork_fs _ ra (hmid.1.pre hmidc)
-          exact ⟨hc', hmid.1.same s2, hmid.2.trans s2.evolves, s2.p⟩
+          exact ⟨⟨hc', hmid.1.same s2, hmid.2.1.trans s2.evolves, s2.p⟩, hmid.2.2.trans s2.back⟩
+
+theorem hardFork_good {s s' : St} {ra lv : Nat} (e : hardFork s ra lv = .ok s') : Good s s' :=
+  fun hc hi => (hardFork_full e hc hi).1
 
 end DymVerif.Core
